@@ -66,6 +66,10 @@ def make_run(site, window, natoms, h):
     offset = h % 3
     after = 0 if site == "compose" else (h // 3) % 2
     filler = lambda n: [[frng.randint(0, 1) for _ in range(natoms)] for _ in range(n)]
+    if L >= 2 and (h // 6) % 3 == 0:
+        # the scenario is still running when the simulation hits maxSteps: it is stopped from outside
+        # ("simulation terminated") and its requirement must be checked then
+        return dict(table=filler(offset) + window, offset=offset, waits=L + 4, after=0, end="max")
     return dict(table=filler(offset) + window + filler(after), offset=offset, waits=L - 1, after=after, end="term")
 
 
@@ -127,10 +131,10 @@ def main():
                 plan.append((f, 2, site, STYLES[(i + j) % 3], tables[2], None))
         d2 = [f for f in F.all_formulas(2, 2) if F.depth(f) == 2]
         if quick:
-            d2 = rng.sample(d2, 230)
+            d2 = rng.sample(d2, 180)
         for j, f in enumerate(d2):
             plan.append((f, 2, SITE_ORDER[j % 5], STYLES[(j // 5) % 3], tables[2], None))
-        nd3 = 60 if quick else 3000
+        nd3 = 50 if quick else 1500
         seen3 = set()
         while len(seen3) < nd3:
             f = F.random_formula(rng, 3, 2)
@@ -140,19 +144,60 @@ def main():
             plan.append((f, 2, SITE_ORDER[j % 5], STYLES[(j // 5) % 3], tables[2], None))
         if not quick:
             t5 = [t for t in all_tables(2, 5) if len(t) == 5]
-            for j, f in enumerate(d2[::7]):
+            for j, f in enumerate(d2[::14]):
                 plan.append((f, 2, SITE_ORDER[j % 5], STYLES[j % 3], t5, None))
 
-    # ---------------- jobs for the implementation, lines for the model
+    # ---------------- processed in rounds of bounded size (memory), each: implementation || model, then compare
+    nrec = {}
+    state = dict(inexpressible=0, programs=0, model_s=0.0)
+
+    def viol(kind, what, replay, **kw):
+        if nrec.get(kind, 0) >= 300:      # keep memory bounded on a badly broken tree
+            c.hist("violations-not-stored:" + kind)
+            return
+        if c.violation(kind, what, replay, **kw):
+            nrec[kind] = nrec.get(kind, 0) + 1
+
+    rounds, cur, size = [], [], 0
+    for idx, entry in enumerate(plan):
+        cur.append((idx, entry))
+        size += len(entry[4])
+        if size >= 180000:
+            rounds.append(cur)
+            cur, size = [], 0
+    if cur:
+        rounds.append(cur)
+    for rnd in rounds:
+        process_round(c, rnd, exe, state, viol)
+    c.cov["inexpressible_formulas_skipped"] = state["inexpressible"]
+    c.cov["programs"] = state["programs"]
+    T["model_driver_s"] = round(state["model_s"], 1)
+    T["total"] = round(time.time() - c.t0, 1)
+    c.cov["stage_seconds_cumulative"] = T
+    if os.environ.get("C11_DUMP"):
+        with open(os.environ["C11_DUMP"], "w") as fh:
+            json.dump([dict(kind=k, formula=r.get("formula"), site=r.get("site"), text=r.get("text"), window=r.get("window"),
+                            impl=r.get("impl"), model=r.get("model"), spec=r.get("spec_fltl"), shape=r.get("shape"))
+                       for k, _, r, _ in c.violations], fh)
+    c.assumptions += [
+        "model = hand-written Gallina (coq/C11/LTL.v) of rv_ltl's monitor.py/b4.py and Scenic's per-step glue, tied to the code by this differential run",
+        "extraction via ExtrOcamlBasic only; OCaml compiler; ocaml/c11/driver.ml",
+        "the formula printer (harness/c11_formulas.py) is the reading of scenic.gram's precedence levels; a wrong reading shows up as a correspondence violation, not silently",
+        "early-rejection oracle searches continuations of at most 3 further steps (bounded); the unbounded claim is the Coq theorem C11_run_early_reject_sound",
+    ]
+    c.finish()
+
+
+def process_round(c, rnd, exe, state, viol):
+    import time
     jobs, meta, lines = [], [], []
-    inexpressible = 0
-    for idx, (f, na, site, style, tabs, text) in enumerate(plan):
+    for idx, (f, na, site, style, tabs, text) in rnd:
         toks = " ".join(F.tokens(f))
         if text is None:
             try:
                 text = F.render(f, style, random.Random(f"{c.seed}-{idx}"))
             except F.Inexpressible:
-                inexpressible += 1
+                state["inexpressible"] += 1
                 c.hist("inexpressible-in-grammar")
                 continue
         runs = []
@@ -164,7 +209,6 @@ def main():
         ego = "ego = new Object" if (idx < len(CORPUS) * len(SITE_ORDER) or c.replay) else "pass"
         jobs.append(dict(id=len(jobs), src=SITES[site].replace("{F}", text).replace("{EGO}", ego), runs=runs))
         meta.append(dict(f=f, toks=toks, natoms=na, site=site, style=style, text=text, windows=tabs))
-    c.cov["inexpressible_formulas_skipped"] = inexpressible
 
     # balance jobs over workers by number of runs
     order = sorted(range(len(jobs)), key=lambda i: -len(jobs[i]["runs"]))
@@ -178,12 +222,11 @@ def main():
         futs = [ex.submit(common.run_impl, "impl_c11.py", dict(jobs=ch), 7000) for ch in chunks]
         tm = time.time()
         model = common.run_driver(exe, lines) if lines else []
-        T["model_driver_s"] = round(time.time() - tm, 1)
+        state["model_s"] += time.time() - tm
         for fu in futs:
             for r in fu.result()["results"]:
                 results[r["id"]] = r
 
-    T["impl+model"] = round(time.time() - c.t0, 1)
     # ---------------- compare
     li = 0
     for jid, m in enumerate(meta):
@@ -197,7 +240,7 @@ def main():
         if r["compile"] != "ok":
             c.count((m["toks"], site, m["style"]))
             c.hist("compile-error")
-            c.violation("parse", "a formula written following scenic.gram's temporal rules does not compile",
+            viol("parse", "a formula written following scenic.gram's temporal rules does not compile",
                         dict(base, window=m["windows"][0], error=r["compile"], program=jobs[jid]["src"]))
             continue
         c.hist("site:" + site)
@@ -221,12 +264,12 @@ def main():
             case = dict(base, window=w, run=run, impl=impl, model=mo_abs, model_verdicts=verdicts,
                         spec_fltl=(spec == "1"), program=jobs[jid]["src"])
             if frag != ("0" if sh["until_below_temporal"] else "1") + ("0" if (sh["until_below_temporal"] or sh["until_temporal_rhs"]) else "1"):
-                c.violation("harness", "fragment classification differs between harness and Coq model", case, no_input=True)
+                viol("harness", "fragment classification differs between harness and Coq model", case, no_input=True)
             # (a) correspondence model <-> implementation
             if impl != mo_abs:
                 c.cov["disagreements_checked"] += 1
                 kind = "correspondence-compose" if site in ("compose", "subcompose") else "correspondence"
-                c.violation(kind, "the implementation's accept/reject outcome differs from the model of rv_ltl + Scenic's glue", case)
+                viol(kind, "the implementation's accept/reject outcome differs from the model of rv_ltl + Scenic's glue", case)
                 if not impl[0] in "AGR":
                     continue
             # (b) property oracle on what the implementation did
@@ -238,34 +281,20 @@ def main():
                 t_rel = 0
                 before_end = impl == "G" and L > 1
             if accepted != (spec == "1"):
-                c.violation("spec-accept", "accepted a trace violating the formula" if accepted else
+                viol("spec-accept", "accepted a trace violating the formula" if accepted else
                             "rejected a trace satisfying the formula (finite-trace LTL, strong next/until)",
                             dict(case, rejected_before_end=before_end))
             if not accepted and before_end and impl == mo_abs and ext.startswith("sat:"):
-                c.violation("spec-early-reject", "rejected before the end of the scenario although a continuation satisfies the formula",
+                viol("spec-early-reject", "rejected before the end of the scenario although a continuation satisfies the formula",
                             dict(case, satisfying_continuation=ext[4:]))
             if always_now:
                 t0 = first_false_now(f, w)
                 want = "A" if t0 is None else ("G" if (t0 == 0 and SCENE_CHECK[site]) else "R%d" % (t0 + off))
                 if impl != want:
-                    c.violation("spec-always-immediate", "`always` of a non-temporal condition did not reject exactly when the condition became false",
+                    viol("spec-always-immediate", "`always` of a non-temporal condition did not reject exactly when the condition became false",
                                 dict(case, expected=want))
         c.sample(dict(formula=m["toks"], text=m["text"], site=site, window=m["windows"][-1], impl=r["outcomes"][-1], model=mlines[-1]), limit=8)
-    c.cov["programs"] = len(jobs)
-    T["compare"] = round(time.time() - c.t0, 1)
-    c.cov["stage_seconds_cumulative"] = T
-    if os.environ.get("C11_DUMP"):
-        with open(os.environ["C11_DUMP"], "w") as fh:
-            json.dump([dict(kind=k, formula=r.get("formula"), site=r.get("site"), text=r.get("text"), window=r.get("window"),
-                            impl=r.get("impl"), model=r.get("model"), spec=r.get("spec_fltl"), shape=r.get("shape"))
-                       for k, _, r, _ in c.violations], fh)
-    c.assumptions += [
-        "model = hand-written Gallina (coq/C11/LTL.v) of rv_ltl's monitor.py/b4.py and Scenic's per-step glue, tied to the code by this differential run",
-        "extraction via ExtrOcamlBasic only; OCaml compiler; ocaml/c11/driver.ml",
-        "the formula printer (harness/c11_formulas.py) is the reading of scenic.gram's precedence levels; a wrong reading shows up as a correspondence violation, not silently",
-        "early-rejection oracle searches continuations of at most 3 further steps (bounded); the unbounded claim is the Coq theorem C11_run_early_reject_sound",
-    ]
-    c.finish()
+    state["programs"] += len(jobs)
 
 
 if __name__ == "__main__":
